@@ -98,29 +98,53 @@ fn structured(fmt: Fmt, exp: i32) -> Vec<u64> {
     let normal_shift = 64 - p;
     // subnormal shift: round() uses shift = 1 - exp when -exp >= normal_shift
     let shift = if -(exp as i64) >= normal_shift { (1 - exp as i64).min(64) } else { normal_shift } as u32;
-    let mut out = Vec::new();
-    let dropped_patterns = |shift: u32| -> Vec<u64> {
-        if shift == 0 {
-            return vec![0];
-        }
-        let mask = if shift == 64 { u64::MAX } else { (1u64 << shift) - 1 };
-        let half = 1u64 << (shift - 1);
-        let mut v = vec![0, 1 & mask, half.wrapping_sub(1) & mask, half, (half + 1) & mask, mask, mask - 1, half | (half >> 1)];
-        v.dedup();
-        v
-    };
+    let mask = if shift == 64 { u64::MAX } else { (1u64 << shift) - 1 };
+    let half = 1u64 << (shift - 1);
+    // dropped-bit patterns: the basic ones ...
+    let mut d_basic = vec![0, 1 & mask, half.wrapping_sub(1) & mask, half, (half + 1) & mask, mask, mask - 1, half | (half >> 1)];
+    d_basic.sort_unstable();
+    d_basic.dedup();
+    // ... and every single dropped bit, half plus every single lower bit, all ones except one bit, every low run of ones
+    let mut d_all = d_basic.clone();
+    for j in 0..shift.min(64) {
+        let b = 1u64 << j;
+        d_all.extend([b & mask, (half | b) & mask, (mask ^ b) & mask, b.wrapping_sub(1) & mask]);
+    }
+    d_all.sort_unstable();
+    d_all.dedup();
     let kept_bits = 64 - shift;
-    let kept_patterns: Vec<u64> = if kept_bits == 0 {
-        vec![0]
+    let (k_basic, k_all): (Vec<u64>, Vec<u64>) = if kept_bits == 0 {
+        (vec![0], vec![0])
     } else {
         let top = 1u64 << (kept_bits - 1);
         let all = if kept_bits == 64 { u64::MAX } else { (1u64 << kept_bits) - 1 };
-        vec![top, top | 1, all, all - 1, top | (top >> 1), top | 2, all ^ 2]
+        let mut kb = vec![top, top | 1, all, all - 1, top | (top >> 1), top | 2, all ^ 2];
+        kb.sort_unstable();
+        kb.dedup();
+        let mut ka = kb.clone();
+        // the top bit plus every single lower kept bit; all ones except one kept bit
+        for j in 0..kept_bits.saturating_sub(1).min(63) {
+            ka.push(top | (1u64 << j));
+            ka.push((all ^ (1u64 << j)) | top);
+        }
+        ka.sort_unstable();
+        ka.dedup();
+        (kb, ka)
     };
-    for &k in &kept_patterns {
-        for &d in &dropped_patterns(shift) {
-            let m = if shift == 64 { d } else { (k << shift) | d };
-            out.push(m | (1u64 << 63));
+    let mut out = Vec::new();
+    let mut emit = |k: u64, d: u64| {
+        let m = if shift == 64 { d } else { (k << shift) | d };
+        out.push(m | (1u64 << 63));
+    };
+    // (basic kept x all dropped) + (all kept x basic dropped)
+    for &k in &k_basic {
+        for &d in &d_all {
+            emit(k, d);
+        }
+    }
+    for &k in &k_all {
+        for &d in &d_basic {
+            emit(k, d);
         }
     }
     out.sort_unstable();
@@ -134,8 +158,10 @@ pub fn run(ctx: &Ctx) -> i32 {
          with extended_to_float, in all 8 configurations. Domain exactly as stated: significand in [2^63,2^64), biased \
          exponent in [-63,2100] (f64) / [-63,320] (f32). The full grid 'every exponent in range x structured \
          significands' is enumerated: for the cut position implied by the exponent (11 / 40 bits, or 1-exp for \
-         subnormals), kept bits in {10..0, 10..01, all ones (carry), all ones-1, 110..0, ...} x dropped bits in {0, 1, \
-         half-1, half, half+1, all ones, all ones-1, 3/4}; plus 2^22 (quick) / 2^30 (thorough) seed-derived random \
+         subnormals), (7 basic kept-bit patterns {10..0, 10..01, all ones (carry), all ones-1, 110..0, ...} x all \
+         dropped-bit patterns {0, 1, half-1, half, half+1, all ones, all ones-1, 3/4, every single bit, half + every \
+         single bit, all ones minus every single bit, every low run of ones}) + (all kept-bit patterns incl. top + \
+         every single bit and all ones minus every single bit x the 8 basic dropped patterns); plus 2^22 (quick) / 2^30 (thorough) seed-derived random \
          (significand, exponent) pairs; plus the mask helpers lower_n_mask / lower_n_halfway for every n in 0..=64 and \
          nth_bit for 0..=63. Oracle: exact integer arithmetic (u128) round-half-even / truncation of \
          significand*2^(exp-bias), incl. subnormals, carry into the next binade, subnormal->min normal, overflow->inf. \
